@@ -280,7 +280,9 @@ fn generate(a: &Args) -> i32 {
             sc.spawn(move || {
                 let mut out: Vec<(usize, String)> = Vec::new();
                 let mut pos = 0usize;
-                while pos < chunk.len() {
+                // a change that makes a whole class of inputs hang or abort would cost the wall-clock limit per case:
+                // each worker stops after a few such cases (they are all reported; the sweep is then incomplete)
+                while pos < chunk.len() && out.iter().filter(|(_, s)| s.starts_with("hang") || s.starts_with("abort")).count() < 3 {
                     let mut child = Command::new(&exe).args(["total", "worker"]).stdin(Stdio::piped()).stdout(Stdio::piped()).stderr(Stdio::null()).spawn().unwrap();
                     let mut cin = child.stdin.take().unwrap();
                     let cout = child.stdout.take().unwrap();
